@@ -12,7 +12,7 @@ import (
 
 func init() {
 	Register("C07", "Decides structural necessary conditions of allOf inheritance: (eq) equality methods of constraints read every field that carries meaning - violated by AdditionalProperties.IsEqual, known finding; (copy) inherited children are deep copies marked with the source type; (req) required keys of the source are propagated; (cycle) the compile recursion is guarded by test-insert-recurse-delete; (refuse) each documented refusal is raised on its guard; (det) no map-order dependence in the allOf compiler. Does NOT decide the merged key set for arbitrary inheritance DAGs nor OpenAPI listing equality.",
-		c07eq, c07copy, c07req, c07cycle, c07refuse, c07walk, func(c *core.Ctx) {
+		c07eq, c07copy, c07share, c07oalist, c07req, c07cycle, c07refuse, c07walk, func(c *core.Ctx) {
 			runMapRange(c, "C07.det", []string{"allOfConstraintCompiler", "CompileAllOf", "AddUnnamedTypes"}, 3)
 		})
 }
@@ -357,4 +357,167 @@ func c07walkAs(c *core.Ctx, R string) {
 		}
 	}
 	c.Check(ok, R, "processNode:recurse-after-extend", c.P.Pos(f.Pos()), "processNode recurses into the children also after expanding the node's own allOf", "after expanding a node's own allOf the compiler no longer descends into the node's children: a nested object with its own allOf keeps the unexpanded rule (its inherited properties are missing and its refusals are not raised)")
+}
+
+// c07share: constraint objects of the parent type are not shared with the inheriting object
+// unless they are immutable.
+func c07share(c *core.Ctx) {
+	const R = "C07.share"
+	c.Rule(R, "in extendWith, every constraint object attached to the inheriting object with AddConstraint is either freshly constructed or, when it is the parent type's own object (obtained from fromObject.Constraint(K)), of a constraint type without mutating methods (no pointer-receiver method): a shared RequiredKeys would make keys inherited later from another parent appear in the first parent type's own required list")
+	c.Floor(R, 1)
+	d := c.P.FindDecl("(*notations/jschema/loader.allOfConstraintCompiler).extendWith")
+	if d == nil {
+		c.Unresolved(R, "(*notations/jschema/loader.allOfConstraintCompiler).extendWith")
+		return
+	}
+	K := c.P.Pkg("notations/jschema/ischema/constraint")
+	mutable := func(tn string) (bool, string) {
+		nt := c.P.NamedType("notations/jschema/ischema/constraint", tn)
+		if nt == nil {
+			return true, "unknown constraint type " + tn
+		}
+		ms := types.NewMethodSet(types.NewPointer(nt))
+		for i := 0; i < ms.Len(); i++ {
+			fn := ms.At(i).Obj().(*types.Func)
+			sig := fn.Type().(*types.Signature)
+			if sig.Recv() != nil {
+				if _, isPtr := sig.Recv().Type().(*types.Pointer); isPtr {
+					return true, "(*" + tn + ")." + fn.Name() + " has a pointer receiver"
+				}
+			}
+		}
+		return false, ""
+	}
+	_ = K
+	// origin of an expression: ("fresh"|"parent:<T>"|"?")
+	var origin func(e ast.Expr, depth int) string
+	origin = func(e ast.Expr, depth int) string {
+		if depth > 6 {
+			return "?"
+		}
+		e = ast.Unparen(e)
+		switch x := e.(type) {
+		case *ast.TypeAssertExpr:
+			o := origin(x.X, depth+1)
+			if strings.HasPrefix(o, "parent:") {
+				t := core.ExprStr(x.Type)
+				t = strings.TrimPrefix(t, "*")
+				t = strings.TrimPrefix(t, "constraint.")
+				return "parent:" + t
+			}
+			return o
+		case *ast.CallExpr:
+			fun := core.ExprStr(x.Fun)
+			if strings.HasSuffix(fun, ".Constraint") && len(x.Args) == 1 {
+				k := core.ExprStr(x.Args[0])
+				k = strings.TrimPrefix(k, "constraint.")
+				return "parent:" + strings.TrimSuffix(k, "ConstraintType")
+			}
+			if strings.HasPrefix(fun, "constraint.New") {
+				return "fresh"
+			}
+			return "?"
+		case *ast.UnaryExpr:
+			if _, ok := x.X.(*ast.CompositeLit); ok {
+				return "fresh"
+			}
+		case *ast.Ident:
+			obj := d.Pkg.TypesInfo.ObjectOf(x)
+			if def := findDef(d.Pkg, obj); def != nil {
+				return origin(def, depth+1)
+			}
+		}
+		return "?"
+	}
+	n := 0
+	ast.Inspect(d.Decl.Body, func(nd ast.Node) bool {
+		call, ok := nd.(*ast.CallExpr)
+		if !ok || !strings.HasSuffix(core.ExprStr(call.Fun), ".AddConstraint") || len(call.Args) != 1 {
+			return true
+		}
+		n++
+		key := core.F("extendWith:AddConstraint#%d", n)
+		pos := c.P.Pos(call.Pos())
+		o := origin(call.Args[0], 0)
+		what := "AddConstraint(" + core.ExprStr(call.Args[0]) + ") in extendWith: origin " + o
+		switch {
+		case o == "fresh":
+			c.OK(R, key, pos, what)
+		case strings.HasPrefix(o, "parent:"):
+			tn := strings.TrimPrefix(o, "parent:")
+			if m, why := mutable(tn); m {
+				c.Bad(R, key, pos, what, "the parent type's own "+tn+" object is attached to the inheriting object and "+why+": later additions to the child change the parent type and every other user of it")
+			} else {
+				c.OKd(R, key, pos, what, "shared object of an immutable constraint type (no pointer-receiver methods)")
+			}
+		default:
+			c.Bad(R, key, pos, what, "undecided: cannot tell whether the attached constraint is fresh or the parent type's own object")
+		}
+		return true
+	})
+	if n == 0 {
+		c.Note(R, "extendWith:AddConstraint", c.P.Pos(d.Decl.Pos()), "no AddConstraint call in extendWith", "nothing is attached")
+	}
+}
+
+// c07oalist: the OpenAPI property listing follows inheritance transitively.
+func c07oalist(c *core.Ctx) {
+	const R = "C07.oalist"
+	c.Rule(R, "openapi.ObjectInfo.PropertiesInfos lists own children and then, through allOf() and dereferenceUserTypeProperties(), the properties of the named types - and the properties of a named type are obtained by PropertiesInfos() again, so the listing is transitive: the three functions form one recursive cycle of the call graph, and allOf() handles both the single-name and the list form without leaving its loop early")
+	c.Floor(R, 3)
+	pi := c.P.Method("openapi", "ObjectInfo", "PropertiesInfos")
+	ao := c.P.Method("openapi", "ObjectInfo", "allOf")
+	de := c.P.Method("openapi", "ObjectInfo", "dereferenceUserTypeProperties")
+	if pi == nil || ao == nil || de == nil {
+		c.Unresolved(R, "openapi.ObjectInfo.{PropertiesInfos,allOf,dereferenceUserTypeProperties}")
+		return
+	}
+	reaches := func(from, to *ssa.Function) bool {
+		for _, g := range c.P.Succs(from) {
+			if g == to {
+				return true
+			}
+		}
+		return c.P.Reach(c.P.Succs(from), nil)[to]
+	}
+	c.Check(reaches(pi, ao), R, "PropertiesInfos->allOf", c.P.Pos(pi.Pos()), "PropertiesInfos adds the inherited properties (calls allOf)", "the listing no longer includes inherited properties")
+	c.Check(reaches(ao, de), R, "allOf->dereference", c.P.Pos(ao.Pos()), "allOf resolves the named types", "the named types of allOf are not resolved")
+	c.Check(reaches(de, pi), R, "dereference->PropertiesInfos", c.P.Pos(de.Pos()), "the properties of a named type are listed by PropertiesInfos again (transitive through the type's own allOf)", "the properties of an inherited type are listed without following that type's own allOf: with a chain of two or more inheritance levels the OpenAPI listing shows fewer keys than Check() and Example() use")
+	// allOf: both token kinds, loop without early exit
+	d := c.P.FindDecl("(openapi.ObjectInfo).allOf")
+	if d == nil {
+		c.Unresolved(R, "(openapi.ObjectInfo).allOf")
+		return
+	}
+	cases := map[string]bool{}
+	loopBad := ""
+	ast.Inspect(d.Decl.Body, func(n ast.Node) bool {
+		switch x := n.(type) {
+		case *ast.CaseClause:
+			calls := false
+			ast.Inspect(x, func(m ast.Node) bool {
+				if call, ok := m.(*ast.CallExpr); ok && strings.HasSuffix(core.ExprStr(call.Fun), ".dereferenceUserTypeProperties") {
+					calls = true
+				}
+				return true
+			})
+			for _, e := range x.List {
+				if calls {
+					cases[core.ExprStr(e)] = true
+				}
+			}
+		case *ast.RangeStmt:
+			ast.Inspect(x.Body, func(m ast.Node) bool {
+				switch y := m.(type) {
+				case *ast.BranchStmt:
+					loopBad = y.Tok.String()
+				case *ast.ReturnStmt:
+					loopBad = "return"
+				}
+				return true
+			})
+		}
+		return true
+	})
+	c.Check(cases["schema.TokenTypeShortcut"] && cases["schema.TokenTypeArray"] && loopBad == "", R, "allOf:forms", c.P.Pos(d.Decl.Pos()), "allOf handles `allOf: \"@a\"` and `allOf: [\"@a\", \"@b\"]`, every list item", core.F("a form of the allOf rule is not followed (shortcut: %v, list: %v, loop exit: %q)", cases["schema.TokenTypeShortcut"], cases["schema.TokenTypeArray"], loopBad))
 }
